@@ -2,6 +2,7 @@ package mqttproxy
 
 import (
 	"encoding/base64"
+	"time"
 
 	"github.com/eclipse/paho.mqtt.golang/packets"
 	"github.com/megaease/easegress/pkg/context"
@@ -220,4 +221,37 @@ func verifC15_ClientPublish() {
 	} else {
 		verifAssert(len(c.writeCh) == 0, "no-puback")
 	}
+}
+
+// verifC15_PubackUnderBackpressure: "a client's QoS1 PUBLISH is acknowledged with a PUBACK of the
+// same id" when the client reads slowly - its outbound queue is full while the PUBLISH is being
+// processed and stays full for two (virtual) seconds, then the client reads again: the PUBACK
+// still arrives (nothing on the way to the connection gives up on a timer).
+func verifC15_PubackUnderBackpressure() {
+	b := vBroker()
+	c := vClient(b, "c0", 1)
+	c.publishLimit = &Limiter{}
+	b.clients["c0"] = c
+	filler := packets.NewControlPacket(packets.Pingresp)
+	c.writeCh <- filler
+	pub := packets.NewControlPacket(packets.Publish).(*packets.PublishPacket)
+	pub.Qos, pub.TopicName = 1, "a/b"
+	pub.MessageID = uint16(verifInt("messageID", 0, 65535))
+	verifAssume(verifUFBool("publishLimiter", pub.RemainingLength+8))
+	done := make(chan struct{})
+	go func() {
+		c.processPacket(pub)
+		close(done)
+	}()
+	verifQuiesce()
+	verifAdvance(int64(2 * time.Second)) // the peer does not read for two seconds
+	verifQuiesce()
+	<-c.writeCh // the peer reads again: the packet queued first leaves
+	<-done
+	verifAssert(len(c.writeCh) == 1, "puback-queued")
+	if len(c.writeCh) == 1 {
+		ack, ok := (<-c.writeCh).(*packets.PubackPacket)
+		verifAssert(ok && ack.MessageID == pub.MessageID, "puback-carries-the-same-id")
+	}
+	verifCover("acknowledged-after-backpressure")
 }
